@@ -44,10 +44,16 @@ def comp_slice(cols, roles, depth, hist):
             items.append({"op": "extend", "ops": {z: M("sum", C(A))}, "partition_by": [K[0]]})
             items.append({"op": "project", "ops": {"s": M("max", C(A))}, "group_by": [K[0]]})
         items.append({"op": "extend", "ops": {z: F("_row_number")}, "partition_by": 1, "order_by": [A]})
+        # every option of a step set to a non-default value: a re-dispatch that forgets one shows
+        if K:
+            items.append({"op": "extend", "ops": {z: F("_row_number")}, "partition_by": [K[0]], "order_by": [A], "reverse": [A]})
+            items.append({"op": "extend", "ops": {z: M("cumsum", C(A))}, "partition_by": [K[0]], "order_by": [A], "reverse": [A]})
     if K and K[0] == "g":
         items.append({"op": "natural_join", "b": menus.E_HIST, "on": ["g"], "jointype": "LEFT"})
+        items.append({"op": "natural_join", "b": menus.E4_HIST, "on": [["g", "k"]], "jointype": "RIGHT"})
     if depth >= 1:
         items.append({"op": "concat_rows", "b": {"prefix": 0}, "id_column": "src"} if False else {"op": "concat_rows", "b": {"prefix": depth}, "id_column": "src"})
+        items.append({"op": "concat_rows", "b": {"prefix": depth}, "id_column": "which", "a_name": "left", "b_name": "right"})
     items += menus.cdata_items(cols, roles)
     return items
 
@@ -180,6 +186,34 @@ def work(a_hist, b_depth, triple_depth, open_ids, part_i=0, part_n=1):
             else:
                 continue
             break
+        # the same composition with a living on a differently named table: the composite must read that table
+        if a_tabs == ["d"] and len(a_hist["steps"]) <= 1 and set(b_ops.get_tables().keys()) == {"d"}:
+            a2_hist = dict(a_hist, table="src", columns=list(H.TABLES["d"]))
+            try:
+                a2_ops = H.build(a2_hist)
+                forms2 = {"rshift": (lambda: a2_ops >> b_ops), "replace_leaves": (lambda: b_ops.replace_leaves({"d": a2_ops}))}
+                full = inputs.mk(["g", "x", "y"], inputs.D_TYPES, inputs.D_ROWS_Q)
+                fr = inputs.to_pandas(full)
+                try:
+                    r_seq2 = seq_eval(a_ops, b_ops, "d", {"d": fr}, {"d": fr})
+                except Exception as e:
+                    r_seq2 = ("raise", type(e).__name__, str(e)[:200])  # the input is not valid for a (e.g. not keyed)
+                for form2, f2 in forms2.items():
+                    part.count("renamed_leaf_compositions")
+                    c2 = f2()
+                    tabs2 = set(c2.get_tables().keys())
+                    r_c2 = backends.run_pandas_frames(c2, {"src": inputs.to_pandas(full)}) if tabs2 == {"src"} else ("raise", "wrong tables", str(sorted(tabs2)))
+                    same = (r_c2[0] == "raise" and r_seq2[0] == "raise" and tabs2 == {"src"}) or diff.results_equal(comp_hist, r_c2, r_seq2)
+                    if ambiguous(comp_hist, {"d": full}):
+                        same = same or tabs2 == {"src"}
+                    if not same:
+                        part.violation(
+                            dict(case_base, form=form2 + " (a over table 'src')", tables_of_composite=sorted(tabs2), composed=compare.brief(r_c2), sequential=compare.brief(r_seq2)),
+                            f"composition ({form2}) with a living on a differently named table does not read that table / differs from b on the result of a: a = {H.short(a_hist)} ; b = {H.short(b_hist)}",
+                        )
+                        break
+            except Exception as e:
+                part.violation(dict(case_base, form="renamed leaf", error=repr(e)[:200]), f"composition with a over a differently named table raises {type(e).__name__}: a = {H.short(a_hist)} ; b = {H.short(b_hist)}")
         part.sample({"a": H.short(a_hist), "b": H.short(b_hist), "forms": sorted(good)}, limit=1)
         # ---- associativity: (a >> b) >> c  vs  a >> (b >> c), c over b's output columns
         if triple_depth and len(b_hist["steps"]) <= 1 and len(b_tabs) == 1:
